@@ -33,6 +33,7 @@ class Contract:
         self.no_functional = False
         self.kinds = {}
         self.nullable = ()
+        self.lemmas = ()
         self.known = []          # [(finding id, FunctionDef)] input regions of recorded known findings
 
 
@@ -80,6 +81,12 @@ def load_contracts(index, only_props=None):
                 if fname in specs and specs[fname].module is not mod:
                     raise RuntimeError(f'duplicate spec function {fname}')
                 specs[fname] = fi
+        NSL = dict(NS)
+        for k, v in mod.consts.items():
+            try:
+                NSL[k] = _const_eval(v, NSL)
+            except Exception:
+                pass
         for cname, ci in mod.classes.items():
             dec = None
             for d in ci.node.decorator_list:
@@ -90,11 +97,11 @@ def load_contracts(index, only_props=None):
             c = Contract()
             c.name = cname
             c.module = mod
-            c.path = _const_eval(dec.args[0], NS)
-            c.qualname = _const_eval(dec.args[1], NS)
+            c.path = _const_eval(dec.args[0], NSL)
+            c.qualname = _const_eval(dec.args[1], NSL)
             for kw in dec.keywords:
                 if kw.arg == 'prop':
-                    c.prop = _const_eval(kw.value, NS)
+                    c.prop = _const_eval(kw.value, NSL)
             dotted = c.path[:-3].replace('/', '.')
             c.fid = f'{dotted}:{c.qualname}'
             for st in ci.node.body:
@@ -120,8 +127,11 @@ def load_contracts(index, only_props=None):
                         c.invariants[k] = (c.invariants.get(k, (None, None))[0], st)
                 elif isinstance(st, ast.Assign) and isinstance(st.targets[0], ast.Name):
                     n = st.targets[0].id
-                    val = _const_eval(st.value, NS)
-                    if n in ('raises', 'modifies', 'reveal', 'nullable'):
+                    if n not in ('raises', 'modifies', 'reveal', 'nullable', 'lemmas', 'opaque', 'result_kind', 'tactics',
+                                 'lemma', 'no_functional', 'kinds'):
+                        continue        # native-only attributes (input generators of the bounded stand-in)
+                    val = _const_eval(st.value, NSL)
+                    if n in ('raises', 'modifies', 'reveal', 'nullable', 'lemmas'):
                         setattr(c, n, tuple(val) if not isinstance(val, str) else (val,))
                     elif n in ('opaque', 'result_kind', 'tactics', 'lemma', 'no_functional', 'kinds'):
                         setattr(c, n, val)
